@@ -225,13 +225,14 @@ func Clause[T any](r *Run, name string, o Opts, gen func(emit func(T) bool), che
 		workers = 1
 	}
 	type wstate struct {
-		hashes   []uint64
-		classes  map[string]struct{}
-		cases    int64
-		evals    int64
-		viol     []violation
-		samples  []item[T]
-		lastItem *item[T]
+		hashes    []uint64
+		classes   map[string]struct{}
+		cases     int64
+		evals     int64
+		viol      []violation
+		samples   []item[T]
+		lastItem  *item[T]
+		compactAt int
 	}
 	ws := make([]*wstate, workers)
 	var wg sync.WaitGroup
@@ -239,7 +240,7 @@ func Clause[T any](r *Run, name string, o Opts, gen func(emit func(T) bool), che
 	var stop atomic.Bool
 	var nviol atomic.Int64
 	for w := 0; w < workers; w++ {
-		s := &wstate{classes: map[string]struct{}{}}
+		s := &wstate{classes: map[string]struct{}{}, compactAt: 1 << 21}
 		ws[w] = s
 		wg.Add(1)
 		go func() {
@@ -261,8 +262,9 @@ func Clause[T any](r *Run, name string, o Opts, gen func(emit func(T) bool), che
 					}
 					if out.Nontrivial {
 						s.hashes = append(s.hashes, hashCase(name, it.c))
-						if len(s.hashes) >= 1<<21 {
+						if len(s.hashes) >= s.compactAt {
 							s.hashes = uniq(s.hashes)
+							s.compactAt = max(1<<21, 2*len(s.hashes)) // amortised: never re-sort an already compacted list per case
 						}
 					}
 					if out.Fail != "" {
